@@ -18,7 +18,7 @@ Elf == [bits64 : BOOLEAN,
         strtab : {"ok", "bad_index", "wrong_type"},
         secNote: {"ok", "absent", "range_bad"},
         text   : {"ok", "absent", "range_bad"},
-        dyn    : {"ok", "absent"},
+        dyn    : {"ok", "absent", "unterminated"},     \* unterminated: no DT_NULL within the declared size - not a well-formed dynamic array
         soname : {"ok", "absent", "offset_bad"}]
 (* ---- strategies as steps ---- *)
 PhNoteId(e)  == e.phdrs = "ok" /\ e.phNote = "ok"
@@ -26,7 +26,9 @@ SectionId(e) == e.shdrs = "ok" /\ e.strtab = "ok" /\ e.secNote = "ok"
 TextId(e)    == e.shdrs = "ok" /\ e.text = "ok"
 BuildIdOutcome(e) == IF PhNoteId(e) THEN "ph" ELSE IF SectionId(e) THEN "section" ELSE IF TextId(e) THEN "text" ELSE "err"
 PhSoname(e)  == e.phdrs = "ok" /\ e.dyn = "ok" /\ e.soname = "ok"
-SecSoname(e) == e.shdrs = "ok" /\ e.dyn = "ok" /\ e.soname = "ok"
+(* the section strategy returns at the DT_SONAME entry, before it would reach the end of an unterminated array; the program-header
+   strategy collects three entries over the whole array and fails on the entry it cannot decode *)
+SecSoname(e) == e.shdrs = "ok" /\ e.dyn \in {"ok", "unterminated"} /\ e.soname = "ok"
 SonameOutcome(e) == IF PhSoname(e) \/ SecSoname(e) THEN "ok" ELSE "err"
 
 VARIABLES elf, pc, bid, so
